@@ -104,6 +104,7 @@ def memory_groups():
     G = []
 
     def g(name, props, harness, enforce, what, defines=(), **kw):
+        kw.setdefault('replay', harness in ('h_sp_reset', 'h_lock', 'h_share') and name in ('sp_reset', 'lock', 'share.into_empty'))
         G.append(Group('memory.' + name, props, 'P', S, harness, enforce=enforce, sources=src,
                        defines=list(defines), what=what, **kw))
     g('up_reset', ['C05', 'C16'], 'h_up_reset', 'cstl_unique_ptr_reset', 'unique reset: clear once on live memory, then free, pointer re-initialised')
@@ -139,7 +140,7 @@ def memory_groups():
         G.append(Group('memory.stray.' + eid, ['C20'], 'P', S, 'h_stray', enforce=fn_of[eid], sources=src,
                        defines=['-DVF_STRAY=%d' % i], covers=['abort'], unwind=2,
                        what='stray (bitwise-copied) object in this argument position, any pointer value: %s never returns normally and writes nothing before aborting' % fn_of[eid]))
-    G.append(Group('memory.same_block', ['C05'], 'P', S, 'h_same_block', sources=src, unwind=2,
+    G.append(Group('memory.same_block', ['C05'], 'P', S, 'h_same_block', sources=src, unwind=2, replay=True,
                    what='share / lock onto a pointer that already co-owns the same allocation, every counter state 2 <= hard < soft: counters unchanged, nothing destroyed (explicit objects, loop-free, symbolic counters)'))
     G.append(Group('memory.alloc_reset_leak', ['C05', 'C16'], 'P', S, 'h_alloc_reset_leak', sources=src,
                    cbmc=['--memory-leak-check'], unwind=2,
